@@ -58,6 +58,7 @@ func init() {
 	execs["render"] = func(op Op) any {
 		src := ansi.Scrub(S(op, "src"))
 		op["scrubbed"] = src
+		op["colors"] = processColors()
 		var m object.Markup
 		var links []string
 		var err error
@@ -67,7 +68,10 @@ func init() {
 			if e != nil {
 				return map[string]any{"parseerror": true}
 			}
-			op["forest"] = forest
+			if !B(op, "nomodel") {
+				/* predicate-only ops (very deep or very large documents) travel without the tree */
+				op["forest"] = forest
+			}
 			m, links, err = hypertext.NewMarkup(src)
 		case "markdown":
 			var buf bytes.Buffer
@@ -78,7 +82,9 @@ func init() {
 			if e != nil {
 				return map[string]any{"parseerror": true}
 			}
-			op["forest"] = forest
+			if !B(op, "nomodel") {
+				op["forest"] = forest
+			}
 			m, links, err = markdown.NewMarkup(src)
 		case "gemini":
 			m, links, err = gemtext.NewMarkup(src)
@@ -113,6 +119,78 @@ func init() {
 			op["fresh"] = fresh
 		}
 		return map[string]any{"links": toAnyList(links), "out": outs}
+	}
+	/* op "renderpair": several Markup values alive at once, rendered alternately at a sequence of
+	   (document, width) steps; what one of them was last asked may not show in another */
+	execs["renderpair"] = func(op Op) any {
+		op["colors"] = processColors()
+		type renderer interface{ Render(int) string }
+		build := func(media, src string) (renderer, []string, error) {
+			switch media {
+			case "html":
+				return hypertext.NewMarkup(src)
+			case "markdown":
+				return markdown.NewMarkup(src)
+			case "gemini":
+				return gemtext.NewMarkup(src)
+			}
+			return plaintext.NewMarkup(src)
+		}
+		docs := L(op, "docs")
+		ms := make([]renderer, len(docs))
+		medias := make([]string, len(docs))
+		srcs := make([]string, len(docs))
+		forests := make([]any, len(docs))
+		scrubbed := make([]any, len(docs))
+		links := make([]any, len(docs))
+		for i, d := range docs {
+			dm, _ := d.(map[string]any)
+			medias[i] = S(dm, "media")
+			srcs[i] = ansi.Scrub(S(dm, "src"))
+			scrubbed[i] = srcs[i]
+			forests[i] = []any{}
+			htmlSrc := srcs[i]
+			if medias[i] == "markdown" {
+				var buf bytes.Buffer
+				if e := mdRenderer.Convert([]byte(srcs[i]), &buf); e != nil {
+					return map[string]any{"parseerror": true}
+				}
+				htmlSrc = buf.String()
+			}
+			if medias[i] == "html" || medias[i] == "markdown" {
+				f, e := parseForest(htmlSrc)
+				if e != nil {
+					return map[string]any{"parseerror": true}
+				}
+				forests[i] = f
+			}
+			m, l, err := build(medias[i], srcs[i])
+			if err != nil {
+				return map[string]any{"parseerror": true}
+			}
+			ms[i] = m
+			links[i] = toAnyList(l)
+		}
+		op["forests"] = forests
+		op["scrubbed"] = scrubbed
+		outs := []any{}
+		fresh := []any{}
+		for _, st := range L(op, "seq") {
+			p, _ := st.([]any)
+			if len(p) != 2 {
+				continue
+			}
+			k, w := I(Op{"v": p[0]}, "v"), I(Op{"v": p[1]}, "v")
+			if k < 0 || k >= len(ms) {
+				continue
+			}
+			outs = append(outs, ms[k].Render(w))
+			/* the same document at the same width on a value nothing else has touched */
+			fm, _, _ := build(medias[k], srcs[k])
+			fresh = append(fresh, fm.Render(w))
+		}
+		op["fresh"] = fresh
+		return map[string]any{"links": links, "out": outs}
 	}
 	groups["render"] = group{gen: genRender}
 	groups["renderdeep"] = group{gen: genRenderDeep}
@@ -358,9 +436,15 @@ func (g *docGen) plainDoc() string {
 
 func genWidthSeq(r *rand.Rand) []any {
 	n := 1 + r.Intn(4)
+	if r.Intn(8) == 0 {
+		n = 5 + r.Intn(10)
+	}
 	ws := []any{}
 	for i := 0; i < n; i++ {
 		w := genWidth(r)
+		if r.Intn(25) == 0 {
+			w = pick(r, []int{251, 300, 500, 1000}) // wider than any ordinary terminal
+		}
 		if r.Intn(3) == 0 {
 			w = pick(r, []int{80, 80, 76, 72, 1, 2})
 		}
@@ -372,8 +456,105 @@ func genWidthSeq(r *rand.Rand) []any {
 	return ws
 }
 
+func genDoc(r *rand.Rand, g *docGen) (string, string) {
+	switch weighted(r, 5, 2, 2, 2) {
+	case 0:
+		return "html", g.blocks(0, 4)
+	case 1:
+		return "markdown", g.markdownDoc()
+	case 2:
+		return "gemini", g.gemtextDoc()
+	}
+	return "plain", g.plainDoc()
+}
+
+/*
+a long history of terminal sizes: up from 1 and back down, a slow drag, jumps between a few
+
+	sizes, a random walk
+*/
+func genWidthHistory(r *rand.Rand) []any {
+	ws := []any{}
+	top := 20 + r.Intn(200)
+	switch r.Intn(5) {
+	case 0:
+		step := 1 + r.Intn(4)
+		for w := 1; w <= top; w += step {
+			ws = append(ws, w)
+		}
+		for w := top; w >= 1; w -= step {
+			ws = append(ws, w)
+		}
+	case 1:
+		/* a drag: every width between two sizes, there and back, twice */
+		lo := 1 + r.Intn(top)
+		hi := lo + 5 + r.Intn(40)
+		for k := 0; k < 2; k++ {
+			for w := lo; w <= hi; w++ {
+				ws = append(ws, w)
+			}
+			for w := hi; w >= lo; w-- {
+				ws = append(ws, w)
+			}
+		}
+	case 2:
+		sizes := []int{80, 80, 1 + r.Intn(top), 1 + r.Intn(top), 1 + r.Intn(10), 0, -1, 79, 81}
+		for k := 10 + r.Intn(60); k > 0; k-- {
+			ws = append(ws, pick(r, sizes))
+		}
+	case 3:
+		w := 1 + r.Intn(top)
+		for k := 20 + r.Intn(100); k > 0; k-- {
+			w += r.Intn(7) - 3
+			ws = append(ws, w)
+		}
+	case 4:
+		/* back to 80 (the width NewMarkup itself renders at) after every other size */
+		for k := 8 + r.Intn(30); k > 0; k-- {
+			ws = append(ws, 1+r.Intn(top), 80)
+		}
+	}
+	return ws
+}
+
 func genRender(r *rand.Rand, n int, emit func(Op)) {
 	for i := 0; i < n; i++ {
+		switch weighted(r, 40, 2, 3) {
+		case 1:
+			/* one document, a long history of widths */
+			g := &docGen{r: r, clean: true}
+			media, src := genDoc(r, g)
+			emit(Op{"op": "render", "media": media, "src": src, "widths": genWidthHistory(r), "labels": g.labels, "checknumbers": true})
+			continue
+		case 2:
+			/* two or three documents alive at once, rendered alternately */
+			k := 2 + r.Intn(2)
+			docs := []any{}
+			for d := 0; d < k; d++ {
+				g := &docGen{r: r, clean: true}
+				media, src := genDoc(r, g)
+				if d > 0 && r.Intn(4) == 0 {
+					/* the same text again, under the same or another media type */
+					prev := docs[d-1].(map[string]any)
+					src = prev["src"].(string)
+					if r.Intn(2) == 0 {
+						media = prev["media"].(string)
+					}
+				}
+				docs = append(docs, map[string]any{"media": media, "src": src})
+			}
+			seq := []any{}
+			ws := genWidthSeq(r)
+			for s := 4 + r.Intn(20); s > 0; s-- {
+				w := I(Op{"v": pick(r, ws)}, "v")
+				if r.Intn(4) == 0 {
+					w = genWidth(r)
+				}
+				seq = append(seq, []any{r.Intn(k), w})
+			}
+			emit(Op{"op": "renderpair", "docs": docs, "seq": seq})
+			continue
+		}
 		g := &docGen{r: r, clean: true}
 		var media, src string
 		switch weighted(r, 5, 2, 2, 2) {
@@ -413,9 +594,248 @@ func genRender(r *rand.Rand, n int, emit func(Op)) {
 	}
 }
 
+/*
+widths beyond what the other generators use: wide terminals, the largest size a terminal can
+
+	report (TIOCGWINSZ holds an unsigned short), and the edges of the integer types
+*/
+var extremeWidths = []int{300, 500, 1000, 4096, 65535, 65531, 1<<31 - 1, 1 << 31, 1<<32 + 7, 1 << 62, 1<<63 - 1, -80, -65535, -(1 << 31), -1<<63 + 70000}
+
+var inlineTags = []string{"b", "i", "u", "s", "code", "mark", "em", "strong", "del", "ins", "span"}
+
+func repeatJoin(n int, f func(i int) string) string {
+	var b strings.Builder
+	for i := 0; i < n; i++ {
+		b.WriteString(f(i))
+	}
+	return b.String()
+}
+
+/*
+Wide rather than deep: single lines of 10^4..10^5 characters, thousands of siblings, long
+attribute values, widths far beyond 300, and inline nesting of several hundred levels.
+
+All of it predicate-only (no crash, no hang, safe, neutral, within the width).  The sizes stay
+inside what the real code handles in about a second: ansi.Apply is quadratic in the number of
+styled cells and every enclosing element re-scans them (the recorded C06 finding), so styled
+stretches are kept below ~15 000 cells, padded <pre> blocks below ~8 000 cells, and
+cells x depth^2 of nested inline styling below ~2 000 000.  Beyond these bounds the real code takes
+tens of seconds; see genReportedDefects.
+*/
+func genRenderWide(r *rand.Rand, emit func(Op)) {
+	w := pick(r, []int{80, 80, 40, 120, 200, 1, 2, 0})
+	if r.Intn(2) == 0 {
+		w = pick(r, extremeWidths)
+	}
+	media, src := "html", ""
+	filler := func(n int) string {
+		/* n characters: one word, ordinary words, or wide characters */
+		switch r.Intn(4) {
+		case 0:
+			return strings.Repeat("x", n)
+		case 1:
+			return strings.Repeat("漢", n)
+		case 2:
+			return strings.Repeat("word ", n/5)
+		}
+		return repeatJoin(n/8, func(i int) string {
+			return pick(r, []string{"lorem ", "ipsum ", "a ", "consectetur ", "é😀 ", "&amp; ", "x-y/z "})
+		})
+	}
+	switch weighted(r, 4, 5, 3, 3, 3, 2, 4) {
+	case 6:
+		/* every construct of a markup in one small document, at an extreme width (the constructs
+		   whose output is as wide as the width itself, <pre> and <hr>, at widths they can fill) */
+		w = pick(r, extremeWidths)
+		switch r.Intn(4) {
+		case 0:
+			media, src = "gemini", "text line\n=> https://t.example/1 label one\n=>https://t.example/2\n# h1\n## h2\n### h3\n* bullet\n> quote\n```alt\npre  formatted\n  block\n```\n=> \n>\n```\nunclosed"
+		case 1:
+			media, src = "plain", "see https://t.example/1 and https://t.example/2, also x://y\n\nsecond paragraph "+strings.Repeat("word ", 30)
+		case 2:
+			media, src = "markdown", "# h\n\ntext *em* **strong** ~~del~~ `code` [l](https://t.example/1) ![i](https://t.example/2)\n\n* a\n* b\n    * c\n\n> q\n> > qq\n\n1. one\n2. two\n\n| a | b |\n|---|---|\n| c | d |\n"
+			if r.Intn(3) == 0 {
+				w = pick(r, []int{300, 1000, 2000})
+				src += "\n```\ncode\n```\n\n---\n"
+			}
+		case 3:
+			src = "<p>text <b>b</b> <i>i</i> <u>u</u> <s>s</s> <code>c  c</code> <mark>m</mark> <span>sp</span> <a href=\"https://t.example/1\">l</a><br>next</p>" +
+				"<blockquote>q <blockquote>qq</blockquote></blockquote><ul><li>one</li><li>two<ul><li>deep</li></ul></li><p>stray</p></ul>" +
+				"<h1>1</h1><h2>2</h2><h3>3</h3><h4>4</h4><h5>5</h5><h6>6</h6><img src=\"https://t.example/i\" alt=\"a\"><video src=\"https://t.example/v\"></video>" +
+				"<iframe src=\"https://t.example/f\" title=\"t\"></iframe><audio alt=\"no src\"></audio><blink>unknown</blink><div>d</div>"
+			if r.Intn(3) == 0 {
+				w = pick(r, []int{300, 1000, 2000})
+				src += "<pre>pre  formatted\n  block</pre><hr><blockquote><hr></blockquote>"
+			}
+		}
+	case 0:
+		/* one very long line */
+		n := pick(r, []int{10000, 20000, 50000, 100000})
+		switch r.Intn(6) {
+		case 0:
+			media, src = "plain", filler(n)
+		case 1:
+			media, src = "gemini", pick(r, []string{"", "* ", "> ", "# ", "=> https://t.example/x "})+filler(n/4)
+			if strings.HasPrefix(src, "=>") || strings.HasPrefix(src, "#") || strings.HasPrefix(src, ">") {
+				src = src[:len(src)/4] // styled line: fewer cells
+				src = strings.ToValidUTF8(src, "")
+			}
+		case 2:
+			media, src = "markdown", filler(n)
+		case 3:
+			src = "<p>" + filler(n) + "</p>"
+		case 4:
+			/* styled: bounded */
+			t := pick(r, inlineTags)
+			src = "<" + t + ">" + filler(2000+r.Intn(12000)) + "</" + t + ">"
+		case 5:
+			/* many URLs on one line of plain text: every one becomes a numbered link */
+			k := 100 + r.Intn(400)
+			media, src = "plain", repeatJoin(k, func(i int) string { return fmt.Sprintf("https://t.example/%d ", i) })
+		}
+	case 1:
+		/* thousands of siblings */
+		n := 500 + r.Intn(2500)
+		switch r.Intn(12) {
+		case 0:
+			src = repeatJoin(n, func(i int) string { return "<p>x</p>" })
+		case 1:
+			src = "a" + strings.Repeat("<br>", n) + "b"
+		case 2:
+			src = "<ul>" + repeatJoin(n, func(i int) string { return "<li>x</li>" }) + "</ul>"
+		case 3:
+			src = repeatJoin(n/2, func(i int) string { return "<b>x</b> " })
+		case 4:
+			src = repeatJoin(n/8, func(i int) string { return fmt.Sprintf("<a href=\"https://t.example/%d\">l</a> ", i) })
+		case 5:
+			src = repeatJoin(n/10, func(i int) string { return fmt.Sprintf("<img src=\"https://t.example/%d\" alt=\"p\">", i) })
+		case 6:
+			if w > 100 || w < -100 {
+				w = 40
+			}
+			src = strings.Repeat("<hr>", n/10)
+		case 7:
+			media, src = "gemini", repeatJoin(n/3, func(i int) string {
+				return pick(r, []string{"=> https://t.example/x l", "# h", "* b", "> q", "t", "", "=>"}) + "\n"
+			})
+		case 8:
+			media, src = "plain", strings.Repeat("a\n", n)+strings.Repeat("\n", n)
+		case 9:
+			media, src = "markdown", repeatJoin(n/4, func(i int) string { return "* item\n" })
+		case 10:
+			src = "<table>" + repeatJoin(n/20, func(i int) string { return "<tr><td>c</td></tr>" }) + "</table>"
+		case 11:
+			src = repeatJoin(n/4, func(i int) string { return "<h" + fmt.Sprint(1+i%6) + ">t</h" + fmt.Sprint(1+i%6) + ">" })
+		}
+	case 2:
+		/* long attribute values */
+		long := "https://t.example/" + strings.Repeat(pick(r, []string{"a", "%41", "é", "/p"}), 5000+r.Intn(45000))
+		switch r.Intn(5) {
+		case 0:
+			src = "<a href=\"" + long + "\">l</a>"
+		case 1:
+			/* shown, hence styled: bounded */
+			src = "<img src=\"" + long[:3000+r.Intn(3000)] + "\">"
+			src = strings.ToValidUTF8(src, "")
+		case 2:
+			src = "<img src=\"https://t.example/i\" alt=\"" + strings.Repeat("alt ", 500+r.Intn(900)) + "\">"
+		case 3:
+			src = "<iframe title=\"" + strings.Repeat("t", 2000+r.Intn(3000)) + "\" src=\"" + long + "\"></iframe>"
+		case 4:
+			src = "<p class=\"" + long + "\" " + repeatJoin(300, func(i int) string { return fmt.Sprintf("a%d=\"v\" ", i) }) + ">x</p><span style=\"" + long + "\">y</span>"
+		}
+	case 3:
+		/* an ordinary document at an extreme width; <pre> and <hr> produce text as wide as the
+		   width itself, so documents containing them get widths they can fill in time */
+		g := &docGen{r: r}
+		media, src = genDoc(r, g)
+		w = pick(r, extremeWidths)
+		asHTML := src
+		if media == "markdown" {
+			var buf bytes.Buffer
+			mdRenderer.Convert([]byte(src), &buf)
+			asHTML = buf.String()
+		}
+		if (media == "html" || media == "markdown") && (strings.Contains(asHTML, "<pre") || strings.Contains(asHTML, "<hr")) {
+			w = pick(r, []int{300, 500, 1000, 2000})
+		}
+		emit(Op{"op": "render", "media": media, "src": src, "widths": []any{w, pick(r, extremeWidths[:3]), 80, w}, "labels": []any{}, "nomodel": true})
+		return
+	case 4:
+		/* inline nesting, hundreds of levels, around a few characters */
+		d := pick(r, []int{50, 100, 200, 300, 500})
+		cells := 2000000 / (d * d)
+		if cells > 300 {
+			cells = 300
+		}
+		if cells < 1 {
+			cells = 1
+		}
+		text := strings.Repeat("word ", cells/5) + "x"
+		mixed := r.Intn(2) == 0
+		tag := pick(r, append([]string{"a href=\"https://t.example/x\"", "font", "small", "sup"}, inlineTags...))
+		var open, close strings.Builder
+		closes := []string{}
+		for i := 0; i < d; i++ {
+			t := tag
+			if mixed {
+				t = inlineTags[r.Intn(len(inlineTags))]
+			}
+			if (t == "font" || t == "small" || t == "sup") && i >= 30 {
+				/* unknown tags print their own names at every level: that grows the text */
+				t = "span"
+			}
+			open.WriteString("<" + t + ">")
+			closes = append(closes, "</"+strings.Fields(t)[0]+">")
+		}
+		for i := len(closes) - 1; i >= 0; i-- {
+			close.WriteString(closes[i])
+		}
+		src = open.String() + text + close.String()
+	case 5:
+		/* a <pre> block of many short lines (every line is padded to the width and styled):
+		   lines x width bounded */
+		lines := 10 + r.Intn(90)
+		w = pick(r, []int{1, 20, 80, 8000 / lines, 8000/lines + 1})
+		src = "<pre>" + repeatJoin(lines, func(i int) string { return pick(r, []string{"x", "", "  indented", "a b"}) + "\n" }) + "</pre>"
+		if r.Intn(3) == 0 {
+			media, src = "markdown", "```\n"+repeatJoin(lines, func(i int) string { return "x\n" })+"```"
+		}
+	}
+	emit(Op{"op": "render", "media": media, "src": src, "widths": []any{w}, "labels": []any{}, "nomodel": true})
+}
+
+/*
+Documents of a few kilobytes on which the real code takes tens of seconds (C06 as stated asks for
+seconds); reported, not repaired, and therefore not generated unless genReportedDefects is set.
+*/
+func genRenderSlow(r *rand.Rand, emit func(Op)) {
+	one := func(media, src string, w int) {
+		emit(Op{"op": "render", "media": media, "src": src, "widths": []any{w}, "labels": []any{}, "nomodel": true})
+	}
+	switch r.Intn(4) {
+	case 0:
+		one("html", "<pre>"+strings.Repeat("x\n", 1000)+"</pre>", 80)
+	case 1:
+		one("markdown", "```\n"+strings.Repeat("x\n", 1000)+"```", 80)
+	case 2:
+		one("html", repeatJoin(100, func(i int) string { return "<" + inlineTags[i%len(inlineTags)] + ">" })+strings.Repeat("word ", 400)+repeatJoin(100, func(i int) string { return "</" + inlineTags[(99-i)%len(inlineTags)] + ">" }), 80)
+	case 3:
+		one("html", "<pre>x</pre>", 65535)
+	}
+}
+
 /* deep nesting: panics, hangs and blow-up live here */
 func genRenderDeep(r *rand.Rand, n int, emit func(Op)) {
 	for i := 0; i < n; i++ {
+		if genReportedDefects && r.Intn(20) == 0 {
+			genRenderSlow(r, emit)
+			continue
+		}
+		if r.Intn(3) == 0 {
+			genRenderWide(r, emit)
+			continue
+		}
 		if r.Intn(8) == 0 {
 			/* one preformatted ancestor around many width-consuming levels (lists, headings):
 			   every level past the available width must stay cheap */
